@@ -15,6 +15,7 @@ from vf.gen.tokens import CORE, CLASS_OF
 from vf import contracts_quote as cq
 from vf.props.c01 import DIRECTED as C01_DIRECTED
 
+MIN_RANDOM = 150  # random iterations run per shard whatever the wall-clock budget (floors must not depend on machine load)
 SHARDS = {"quick": 4, "thorough": 16}
 BUDGET = {"quick": 22, "thorough": 240}
 MIN_CASES = {"quick": 8000, "thorough": 200000}
@@ -272,7 +273,7 @@ def run(ctx):
             ctx.exhaustive_space("fix points of token sequences <= 2 in %s" % comp, n_here)
         n = 0
         lim = 1500 if ctx.tier == "quick" else 10 ** 7
-        while ctx.time_left() and n < lim:
+        while (ctx.time_left() or n < MIN_RANDOM) and n < lim:
             n += 1
             b = G.random_case(rng, max_tok=rng.choice([2, 3, 6]), rich=True)
             if n % 3 == 0:
